@@ -1372,7 +1372,7 @@ def check_info_restrict(ctx, kind, arg, tag, rng):
                 first = out.decode("latin-1").split("\n")[0]
                 m = re.match(r"(\S+) L#(\d+) = (parent of PU L#0|descendant #0 of Machine L#0)", first)
                 if rc != 0 or not m:
-                    ctx.violation("info-ancestor-stale-depth" if "@" in kind else "info:%s:%s" % (tag, name),
+                    ctx.violation("info-restrict-depth:%s:%s:%s" % (tag, mode, name),
                                   "hwloc-info %r: rc=%d first line %r, expected an object of the %s level" % (args, rc, first, G.TYPE_NAMES[ty]), rtxt)
                     continue
                 r = ref.ask("typedepth " + m.group(1))
@@ -1380,7 +1380,7 @@ def check_info_restrict(ctx, kind, arg, tag, rng):
                 got_depth = int(mm.group(3)) if mm and int(mm.group(1)) >= 0 else None
                 want_li = anc[d]["li"] if mode == "ancestor" else 0
                 if got_depth != d or int(m.group(2)) != want_li:
-                    ctx.violation("info-ancestor-stale-depth" if "@" in kind else "info:%s:%s" % (tag, name),
+                    ctx.violation("info-restrict-depth:%s:%s:%s" % (tag, mode, name),
                                   "hwloc-info %r on the restricted topology names %r; the %s of type %s is %s L#%d (depth %d)"
                                   % (args, first, mode, name, G.TYPE_NAMES[ty], want_li, d), rtxt)
                 else:
@@ -1418,6 +1418,11 @@ def load_corpus():
             elif line.startswith("args: ") and kind:
                 toks = [unesc(t) for t in line[6:].split(" ") if t != ""]
                 res.append({"file": os.path.basename(p), "kind": kind, "arg": arg, "args": toks})
+            elif line.startswith("info: ") and kind:
+                # hwloc-info regression: "info: <args> => <expected beginning of the first output line>"
+                a, _, e = line[6:].partition(" => ")
+                res.append({"file": os.path.basename(p), "kind": kind, "arg": arg.replace("$REPO", C.REPO), "tool": "hwloc-info",
+                            "args": a.split(), "expect": e})
             elif line.startswith("stdin: ") and res:
                 res[-1]["stdin"] = unesc(line[7:].strip())       # the text hwloc-calc reads when args name no location
     return res
@@ -1534,7 +1539,7 @@ def check(run, replay=None):
             kind, arg = topos[i]
             r = random.Random(seeds[i])
             tag = "t%d" % i
-            cc = [dict(c, out=("corpus",)) for c in corpus if c["kind"] == kind and c["arg"] == arg]
+            cc = [dict(c, out=("corpus",)) for c in corpus if c["kind"] == kind and c["arg"] == arg and c.get("tool") != "hwloc-info"]
             res = check_calc_topology(ctx, kind, arg, ncmd, nmal, r, corpus_cmds=cc, nstdin=nstdin)
             if res:
                 run_model(ctx, kind, arg, res[0], res[1], tag)
@@ -1547,6 +1552,17 @@ def check(run, replay=None):
             if "@" in kind or i % 4 == 0:
                 check_info_restrict(ctx, kind, arg, tag, r)
 
+        # hwloc-info regressions of the corpus
+        for c in corpus:
+            if c.get("tool") == "hwloc-info":
+                rc, out, err = run_tool(tools["hwloc-info"], topo_args(c["kind"], c["arg"]) + c["args"])
+                first = out.decode("latin-1").split("\n")[0]
+                run.count("info-corpus|%s|%s" % (c["args"], first), nontrivial=True, kind="info-corpus")
+                if crashed(rc, err) or rc != 0 or not first.startswith(c["expect"]):
+                    run.violation("info-corpus:%s:%s" % (c["file"], "-".join(c["args"])), "hwloc-info %r on %s %s prints %r (rc=%d), expected %r"
+                                  % (c["args"], c["kind"], c["arg"], first, rc, c["expect"]),
+                                  replay_text(c["kind"], c["arg"], "hwloc-info", c["args"], "stdout:\n" + out.decode("latin-1")[:300]))
+        corpus = [c for c in corpus if c.get("tool") != "hwloc-info"]
         # corpus topologies that are not in the list get their own entry
         for c in corpus:
             if (c["kind"], c["arg"]) not in topos:
